@@ -351,6 +351,21 @@ func (c14) Run(plan interface{}, schedSeed uint64, replay []simrt.Choice, lenien
 	case firstErr.Now > bound:
 		v.Violate("late-error", "error later than the read timeout", "%s: failure at t=%v, first error at t=%v, bound %v", where, got.FailedAt, firstErr.Now, bound)
 	}
+	// 3. the failure is permanent: every later receive fails as well, in time - none blocks until its own deadline
+	if firstErr != nil && !isCtx(firstErr) {
+		seenFirst := false
+		for i := range got.Recs {
+			r := &got.Recs[i]
+			if r == firstErr {
+				seenFirst = true
+				continue
+			}
+			if seenFirst && r.Err != "" && isCtx(r) {
+				v.Violate("later-receive-blocked", "a receive after the first error blocked until its own deadline", "%s: the first error came at t=%v, a later receive only returned when the consumer's context expired at t=%v (read timeout %ds)", where, firstErr.Now, r.Now, p.ReadTimeoutS)
+				break
+			}
+		}
+	}
 	if p.K > 0 && p.K < len(wire) {
 		v.Nontrivial = fmt.Sprintf("%v|%v|%d|%s", p.Entries, p.Cuts, p.K, p.Kind)
 	}
@@ -400,7 +415,9 @@ func c14RunWrite(p *c14Plan, schedSeed uint64, replay []simrt.Choice, lenient, k
 	s.Net.Setup = func(c *simrt.Conn) { c.WriteFaults = map[int]simrt.WriteFault{p.J: {Accept: p.Accept}} }
 	var sendErr error
 	var recs []PkgRec
-	var connErr string
+	var connErr, second string
+	var secondAt time.Duration
+	closed := false
 	out := s.Run(func() {
 		conn, err := tds.NewConn(context.Background(), MkInfo(100, p.ReadTimeoutS, false))
 		if err != nil {
@@ -424,6 +441,16 @@ func c14RunWrite(p *c14Plan, schedSeed uint64, replay []simrt.Choice, lenient, k
 			}
 			recs = append(recs, recPkg(pkg))
 		}
+		// the connection may be broken, but it must not hang: another request returns (with or without an error)
+		// while its context is live, and the connection can be closed
+		ctx2, cancel2 := simrt.WithTimeout(context.Background(), 5*time.Second)
+		defer cancel2()
+		simrt.Record("second-send", "", "", 0)
+		second = fmt.Sprint(ch.SendPackage(ctx2, &tds.LanguagePackage{Cmd: "again"}))
+		secondAt = simrt.SimNow()
+		simrt.Record("conn-close", "", "", 0)
+		conn.Close()
+		closed = true
 	})
 	StdOutcome(v, out)
 	if v.Machinery != "" {
@@ -444,6 +471,15 @@ func c14RunWrite(p *c14Plan, schedSeed uint64, replay []simrt.Choice, lenient, k
 	if fired && len(recs) > 0 {
 		v.Violate("delivery-after-write-error", "package delivered after failed request", "%s: %d packages were delivered afterwards", where, len(recs))
 	}
+	if v.Class == "" && !out.Budget {
+		switch {
+		case second == "":
+			v.Violate("blocked", "request after a failed write never returned "+ParkSig(out, Sites), "%s: the next SendPackage on the channel did not return although its context expired (%v)", where, out.Parked)
+		case !closed:
+			v.Violate("blocked", "Conn.Close after a failed write never returned "+ParkSig(out, Sites), "%s: Conn.Close did not return (%v)", where, out.Parked)
+		}
+	}
+	_ = secondAt
 	if fired {
 		v.Nontrivial = fmt.Sprintf("write|%d|%d|%d", p.ReqLen, p.J, p.Accept)
 	}
